@@ -65,18 +65,24 @@ def gen_function(args):
                 s.add(h)
             obs.append(dict(name=f"cover:{qual}:path{pid}", kind='cover', where=ob.where, path=pid, trivial=False,
                             smt2=s.to_smt2()))
-        return dict(qual=qual, status=rep.status, reason=rep.reason, paths=rep.paths, outcomes=rep.outcomes,
+        status, reason = rep.status, rep.reason
+        if status == 'ok' and rep.outcomes.get('infeasible'):
+            # the hypotheses of a path became contradictory after its last feasible decision: an assumed callee post-condition
+            # or invariant contradicts the state reached.  Everything on such a path would be 'proved'; it is not a pass.
+            status, reason = 'vacuous-path', (f"{rep.outcomes['infeasible']} path(s) end in contradictory hypotheses "
+                                              f"(at: {'; '.join(getattr(rep, 'vacuous', [])[:2])})")
+        return dict(qual=qual, status=status, reason=reason, paths=rep.paths, outcomes=rep.outcomes,
                     obligations=obs, erased=rep.erased, assumed=rep.assumed, file=rep.file, lineno=rep.lineno,
-                    seconds=round(time.time() - t0, 2))
+                    callees=getattr(rep, 'callees', []), seconds=round(time.time() - t0, 2))
     except Exception as e:
         tb = traceback.format_exc()
         if isinstance(e, (KeyError, AttributeError, IndexError)) and '/contracts/' in tb.split('\n')[-4:][0] + tb:
             # the sidecar names a local / field / loop that the function no longer has: the contract does not fit the code any more
             last = [l for l in tb.splitlines() if l.strip()][-1]
             return dict(qual=qual, status='contract-mismatch', reason=f"the contract of {qual} refers to something the code no longer has ({last})",
-                        obligations=[], paths=0, outcomes={}, erased=[], assumed=[], file=None, lineno=None, seconds=round(time.time() - t0, 2))
+                        obligations=[], paths=0, outcomes={}, erased=[], assumed=[], file=None, lineno=None, callees=[], seconds=round(time.time() - t0, 2))
         return dict(qual=qual, status='checker-error', reason=tb, obligations=[], paths=0, outcomes={},
-                    erased=[], assumed=[], file=None, lineno=None, seconds=round(time.time() - t0, 2))
+                    erased=[], assumed=[], file=None, lineno=None, callees=[], seconds=round(time.time() - t0, 2))
 
 
 def gen_lemma(args):
@@ -113,8 +119,32 @@ def run_property(prop, tier='quick', seed=0, out=sys.stdout):
     lemmas = [nm for nm, props, fn in REG.lemmas if prop in props]
     ctx = mp.get_context('fork')
     # one fresh process per function: no state (interned codes, caches) can leak from one function's verification to another's
-    with ctx.Pool(min(procs, max(1, len(quals))), maxtasksperchild=1) as pool:
-        reps = pool.map(gen_function, [(q,) for q in quals], chunksize=1)
+    reps = []
+    via = {}
+    todo = list(quals)
+    seen_q = set(quals)
+    while todo:
+        with ctx.Pool(min(procs, max(1, len(todo))), maxtasksperchild=1) as pool:
+            batch = pool.map(gen_function, [(q,) for q in todo], chunksize=1)
+        reps.extend(batch)
+        # callee closure: the modular proof of a function rests on the contracts of the in-tree functions it calls and of the
+        # processes it spawns; those bodies are verified in the same check (all their obligations count for this property)
+        todo = []
+        for rep in batch:
+            for cq in rep.get('callees', []):
+                if cq.startswith('spawn:'):
+                    # processes spawned: their bodies are pulled in at the thorough tier only (a spawner relies on the spawned
+                    # generator's entry precondition, which is its own obligation; the whole-process behaviour is the
+                    # property-level argument)
+                    if tier != 'thorough':
+                        continue
+                    cq = cq[6:]
+                cc = REG.contracts.get(cq)
+                if cc is not None and not cc.assumed and cq not in seen_q and prop != 'C10':
+                    seen_q.add(cq)
+                    via[cq] = rep['qual']
+                    todo.append(cq)
+    quals = sorted(seen_q)
     lem_obs = [gen_lemma((nm,)) for nm in lemmas]
     # ---- collect the property's obligations
     errors, undecided_fn = [], []
@@ -127,12 +157,13 @@ def run_property(prop, tier='quick', seed=0, out=sys.stdout):
             continue
         if rep['status'] != 'ok':
             undecided_fn.append(f"{rep['qual']}: {rep['status']}: {rep['reason']}")
-        mine = [o for o in rep['obligations'] if owns(o['name'], prop, c.props)]
+        mine = [o for o in rep['obligations'] if owns(o['name'], prop, list(c.props) + ([prop] if rep['qual'] in via else []))]
         for o in mine:
             o['function'] = rep['qual']
         allobs.extend(mine)
         fn_summ.append(dict(function=rep['qual'], file=rep['file'], line=rep['lineno'], paths=rep['paths'],
                             outcomes=rep['outcomes'], obligations=len(mine), status=rep['status'], gen_seconds=rep['seconds'],
+                            **({'included_as_callee_of': via[rep['qual']]} if rep['qual'] in via else {}),
                             erased=[list(e) for e in rep['erased']], assumed_dependency_contracts=rep['assumed']))
     for o in lem_obs:
         if o is None:
